@@ -30,6 +30,8 @@ def keys_of(h):
     for e in h["steps"]:
         if e["op"] == "call":
             keys.append("%s|%s|%s|%s" % ("fq" if e["f"] else "iq", e["m"], e["q"], e["r"]))
+        elif e["op"] == "direct":
+            keys.append("dm|%s|%s|%s" % (e["m"], e["q"], e["r"]))
         elif e["op"] == "set":
             store[e["w"]] = e["r"]
         elif e["op"] == "clone":
